@@ -34,9 +34,9 @@ type ctx struct {
 	// never straddles two chunk files (the trace specification's state starts afresh in every chunk)
 	manualRotate bool
 	chunkStart   int
-	outBase  string
-	chunk    int
-	maxLines int
+	outBase      string
+	chunk        int
+	maxLines     int
 }
 
 func (c *ctx) emit(v interface{}) {
